@@ -47,6 +47,20 @@ CHECKS = {
         note="Trusts vf/reftype.py (descriptor-level reference checker) and the grammar's soundness rules (class-level defaults conform to their annotation; users do not mutate contained collections directly).",
         ref="DESIGN.md section 4, C03",
     ),
+    "C01": dict(
+        level="exploration",
+        technique="property-based testing over a class-definition grammar with fault injection: Hypothesis-generated worlds/histories/probes; before/after identity snapshots; callback-fault and sys.settrace line-fault enumeration",
+        text="Hypothesis generates class worlds, histories reaching a state and a copy-on-write probe with arbitrary (valid or invalid) arguments; identity+content snapshots of the receiver, every argument, every other live instance and the class-level defaults must be unchanged after the probe - run naturally, once per (user callback, invocation) fault, and with an exception injected at executed library lines (sampled in quick, every line on a third of the cases in thorough). Sampled search.",
+        note="Trusts vf/snapshot.py (raw __dict__ / container walk) and replay of the history through the public API to rebuild replicas; transforms are pure by construction.",
+        ref="DESIGN.md section 4, C01",
+    ),
+    "C04": dict(
+        level="fault_enumeration",
+        technique="property-based testing with enumerated failure causes: generated probes with ill-typed / missing / duplicate / unknown arguments, plus every (user callback, invocation) fault point enumerated on replicas; before/after identity snapshots",
+        text="For Hypothesis-generated worlds, states and probes drawn from the whole operation alphabet (constructor, assignment, deletion, helpers with and without _inplace, multi-keyword update/transform, element helpers, nested in-place edits) every way of failing is exercised: ill-typed values per position, missing targets, duplicate keys, unknown keywords, and each callback invocation raising in turn; whenever the probe raises, snapshots of receiver, arguments, peers and class-level defaults must be unchanged.",
+        note="Fault points are the invocations of generated user callbacks (transform, attribute transform, preparer, item preparer, __post_copy__) observed in a natural run; trusts vf/snapshot.py.",
+        ref="DESIGN.md section 4, C04",
+    ),
 }
 
 NOT_YET = "check not built yet in this revision (see DESIGN.md section 9 for the order); nothing is claimed"
